@@ -6,8 +6,8 @@
    other entries, an update taken for a no-op or not ...). *)
 From HI Require Export Corr.Corr_ConfigSM.
 
-(* C05 cases carry no fault *)
+(* C05 cases carry no fault and no restart *)
 Definition fault_free (c : hcase) : bool :=
-  forallb (fun st => match s_faults st with [] => true | _ => false end) (h_steps c).
+  forallb (fun st => negb (s_restart st) && match s_faults st with [] => true | _ => false end) (h_steps c).
 Definition mismatches (cs : list hcase) : list N :=
   map h_id (filter (fun c => negb (fault_free c && case_ok false c)) cs).
